@@ -367,6 +367,11 @@ func (lv *live) applyEvents(r *rec, l0 int64) error {
 			if e.size < h.Logical {
 				return harnessErr{fmt.Sprintf("rotated file %s has %d bytes, model had written %d", e.name, e.size, h.Logical)}
 			}
+			if old := m.file(e.name); old != nil && old != h {
+				lv.rep.violation(m, "rotation-overwrote-existing-file", -1,
+					fmt.Sprintf("the head was rotated to %s, which already existed with %d records (%d bytes)", e.name, len(old.Recs), old.Size), nil)
+				return harnessErr{"model cannot continue after a rotation onto an existing file"}
+			}
 			h.Size, h.Logical = e.size, e.size
 			h.Name = e.name
 			for _, i := range h.Recs {
@@ -374,6 +379,9 @@ func (lv *live) applyEvents(r *rec, l0 int64) error {
 			}
 			if m.file(headName) != nil {
 				return harnessErr{"two heads in model"}
+			}
+			if len(e.name) > len(headName)+4 {
+				lv.rep.c.Count("rotations_to_index_of_4_or_more_digits", 1)
 			}
 			// read the rotated file back (it may already have been pruned)
 			if b, err := os.ReadFile(filepath.Join(lv.dir, e.name)); err == nil {
